@@ -88,9 +88,38 @@ func runImpl(input []byte, mult int64) (rows []RowObs, isErr bool) {
 				fo := FieldObs{K: hx(f.Key), T: f.Type, Bits: math.Float64bits(f.NumValue), S: hx(f.StrValue)}
 				var col record.ColVal
 				var size int64
-				if err := record.AppendFieldToCol(&col, f, &size); err == nil && f.Type == influx.Field_Type_Int {
-					if v := col.IntegerValues(); len(v) == 1 {
-						fo.Stored = v[0]
+				// what the column finally holds replaces the in-flight value in the observation
+				if err := record.AppendFieldToCol(&col, f, &size); err != nil {
+					fo.T = -1
+				} else {
+					switch f.Type {
+					case influx.Field_Type_Int:
+						if v := col.IntegerValues(); len(v) == 1 {
+							fo.Stored = v[0]
+						} else {
+							fo.T = -1
+						}
+					case influx.Field_Type_Float:
+						if v := col.FloatValues(); len(v) == 1 {
+							fo.Bits = math.Float64bits(v[0])
+						} else {
+							fo.T = -1
+						}
+					case influx.Field_Type_Boolean:
+						if v := col.BooleanValues(); len(v) == 1 {
+							fo.Bits = 0
+							if v[0] {
+								fo.Bits = math.Float64bits(1)
+							}
+						} else {
+							fo.T = -1
+						}
+					case influx.Field_Type_String:
+						if v, isNil := col.StringValueSafe(0); !isNil {
+							fo.S = hx(v)
+						} else {
+							fo.T = -1
+						}
 					}
 				}
 				ro.Fields = append(ro.Fields, fo)
@@ -547,6 +576,12 @@ func emit(c *Case) {
 func caseValid(r *gen.Rand, idx int) {
 	p := genPoint(r)
 	text := render(r, p)
+	switch r.Intn(8) {
+	case 0:
+		text += "\r\n"
+	case 1:
+		text += "\n"
+	}
 	rows, isErr := runImpl([]byte(text), 1)
 	c := &Case{I: idx, Class: "valid", Mult: 1, In: hx(text), Text: text, Err: isErr, Rows: rows, Judged: true, Nontrivial: pointNontrivial(p, text)}
 	if !pointStorable(p) {
@@ -618,7 +653,7 @@ func caseBatch(r *gen.Rand, idx int) {
 		lines[i].text = strings.ReplaceAll(lines[i].text, "\n", "")
 	}
 	sep := "\n"
-	if r.Chance(1, 6) {
+	if r.Chance(1, 3) {
 		sep = "\r\n"
 	}
 	var sb strings.Builder
